@@ -54,6 +54,17 @@ type sessCfg struct {
 	stall   time.Duration
 	hardCap time.Duration
 	drain   int
+	// hist mode: further Run calls on the SAME connected Network, in this
+	// order at every party (cfg.pc / cfg.inputs are the first call)
+	more []*histStep
+}
+
+// histStep is one further Run call of a history.
+type histStep struct {
+	pc     progCase
+	rel    string // relation to the circuit of the previous call
+	inputs []*big.Int
+	gaps   []time.Duration // per party: pause before this call
 }
 
 type sessOut struct {
@@ -69,6 +80,12 @@ type sessOut struct {
 	timeout  string
 	stalledS float64 // seconds without observable progress when given up
 	elapsed  time.Duration
+	// hist mode (len(cfg.more) > 0): wires right after the first call and,
+	// per further call, results / errors / wires of every party
+	wires0 []*big.Int
+	mres   [][][]*big.Int
+	mErr   [][]error
+	mwires [][]*big.Int
 }
 
 func waitAll(wg *sync.WaitGroup, d time.Duration) bool {
@@ -114,7 +131,12 @@ func runSession(cfg *sessCfg) *sessOut {
 	so := &sessOut{
 		nws: make([]*gmw.Network, n), connErr: make([]error, n), runErr: make([]error, n),
 		results: make([][]*big.Int, n), wires: make([]*big.Int, n), snaps: make([]*gmw.Triples, n),
-		drained: make([]*gmw.Triples, n), closeErr: make([]error, n),
+		drained: make([]*gmw.Triples, n), closeErr: make([]error, n), wires0: make([]*big.Int, n),
+	}
+	for range cfg.more {
+		so.mres = append(so.mres, make([][]*big.Int, n))
+		so.mErr = append(so.mErr, make([]error, n))
+		so.mwires = append(so.mwires, make([]*big.Int, n))
 	}
 	start := time.Now()
 	end := start.Add(cfg.hardCap)
@@ -189,6 +211,31 @@ func runSession(cfg *sessCfg) *sessOut {
 		res, err := so.nws[p].Run(cfg.inputs[p], c, false)
 		so.results[p], so.runErr[p] = res, err
 		atomic.AddUint64(&phase, 1)
+		if len(cfg.more) == 0 || err != nil {
+			return
+		}
+		// the history: every further call on the same Network object, with
+		// whatever the earlier calls left in it
+		so.wires0[p] = so.nws[p].VerifWires()
+		for k, st := range cfg.more {
+			time.Sleep(st.gaps[p])
+			func() {
+				defer func() {
+					if e := recover(); e != nil {
+						so.mErr[k][p] = fmt.Errorf("panic: %v", e)
+					}
+				}()
+				res, err := so.nws[p].Run(st.inputs[p], st.pc.circ, false)
+				so.mres[k][p], so.mErr[k][p] = res, err
+				if err == nil {
+					so.mwires[k][p] = so.nws[p].VerifWires()
+				}
+			}()
+			atomic.AddUint64(&phase, 1)
+			if so.mErr[k][p] != nil {
+				return
+			}
+		}
 	}
 	closeAll := func() {
 		var wg sync.WaitGroup
